@@ -448,8 +448,12 @@ double cmb_timeseries_median(const struct cmb_timeseries *tsp)
         wcum[ui] = wsum;
     }
 
+    /*
+     * Start from the smallest value: that is the answer when the search below
+     * finds no interval, i.e. when it alone holds more than half of the weight
+     */
     const double wmid = 0.5 * wsum;
-    double r = 0.0;
+    double r = dsp->xa[0];
      for (uint64_t ui = 0u; ui < un - 1; ui++) {
         if ((wcum[ui] <= wmid) && (wcum[ui + 1] > wmid)) {
             cmb_assert_debug(wcum[ui + 1] > wcum[ui]);
@@ -495,9 +499,10 @@ void cmb_timeseries_fivenum_print(const struct cmb_timeseries *tsp,
     const double w050 = 0.50 * wsum;
     const double w075 = 0.75 * wsum;
 
-    double x025 = 0.0;
-    double x050 = 0.0;
-    double x075 = 0.0;
+    /* The smallest value is the answer if it alone holds the sought share */
+    double x025 = dsp->xa[0];
+    double x050 = dsp->xa[0];
+    double x075 = dsp->xa[0];
     for (uint64_t ui = 0u; ui < un - 1; ui++) {
         if ((wcum[ui] <= w025) && (wcum[ui + 1] > w025)) {
             cmb_assert_debug(wcum[ui + 1] > wcum[ui]);
